@@ -70,7 +70,7 @@ def item_atom(it_key: str, path: Optional[List[int]], flat_tag: str = "") -> str
         return f"item∈{it_key}"
     k = f"item#{path[0]}∈unpack({it_key})"
     for j in path[1:]:
-        k = f"({k})[{j}]"
+        k = f"{_paren(k)}[{j}]"
     return k
 
 
